@@ -698,6 +698,11 @@ var refBuf int
 
 func main() {
 	ctx = engine.Start("C06", "model_checking")
+	ls.OnViolation = func(sig, what string) {
+		if ctx.SigCount(sig) < 3 {
+			ctx.Violation(sig, map[string]interface{}{"kind": "wrapper", "what": what})
+		}
+	}
 	if ctx.ReplayPath != "" {
 		replay()
 		return
